@@ -256,9 +256,11 @@ def run_config(c, cfg):
     states = set()
     first = [True]
 
+    shared_sim = LineageSSASimulator()      # one simulator object for all runs of this configuration
+
     def impl(us):
         v = LineageVolumeCellState(v0=1.0, t0=0.0, state=x0v.copy())
-        sim = LineageSSASimulator()
+        sim = shared_sim
         with warnings.catch_warnings():
             warnings.simplefilter('ignore')
             with Stream(us, tail=0.37) as st:
